@@ -409,6 +409,15 @@ fn run_shard(
                     }
                     return Ok(());
                 }
+                if f.signature.contains("/hang") {
+                    // a hang cannot be shrunk in reasonable time (every failing attempt costs the full timeout)
+                    let v = Violation { failure: f, tape: Some(bytes.clone()), sweep_index: None };
+                    let path = write_replay(prop, tier, &v);
+                    println!("FAILURE signature={}", v.failure.signature);
+                    println!("  {}", v.failure.message.replace('\n', "\n  "));
+                    println!("VIOLATION property={} replay={}", prop.id(), path.display());
+                    std::process::exit(1);
+                }
                 if !g.failed {
                     g.stats.evaluations += 1;
                 }
@@ -776,6 +785,21 @@ pub fn replay(props: &[Box<dyn Property>], path: &str) -> i32 {
             println!("VIOLATION property={id} replay={path}");
             1
         }
+    }
+}
+
+/// Run `f` on a helper thread; None if it does not return within `secs` (the thread is left behind;
+/// callers report a "/hang" failure, which the driver treats as fatal: no shrinking, immediate exit 1).
+pub fn run_with_timeout<T: Send + 'static>(secs: u64, f: impl FnOnce() -> T + Send + 'static) -> Option<T> {
+    let (tx, rx) = std::sync::mpsc::channel();
+    std::thread::spawn(move || {
+        let r = catch_unwind(AssertUnwindSafe(f));
+        let _ = tx.send(r);
+    });
+    match rx.recv_timeout(std::time::Duration::from_secs(secs)) {
+        Ok(Ok(v)) => Some(v),
+        Ok(Err(p)) => std::panic::resume_unwind(p),
+        Err(_) => None,
     }
 }
 
